@@ -949,3 +949,9 @@ pub(crate) fn merge_nodes(
     }
     Ok(node)
 }
+
+#[cfg(rustic_core_verif)]
+#[allow(missing_docs, unused_imports, dead_code, clippy::all, clippy::pedantic, clippy::nursery)]
+pub mod verif_hooks {
+    use super::*;
+}
